@@ -81,6 +81,7 @@ def run_unit(unit, tier, seed):
                cross_solver=(tier == 'thorough'))
     E.int_mode = unit.int_mode
     E.nonlinear_ok = getattr(unit, 'nonlinear_ok', False)
+    E.branch_timeout_ms = getattr(unit, 'branch_timeout_ms', None)
     E.deadline = time.time() + (getattr(unit, 'wall_budget_s', None) or (150 if tier == 'quick' else 1800))
     I = Interp(E)
     unit.tier = tier
